@@ -27,10 +27,13 @@ def K(v):
 
 TKINDS = {"TUntyped": None, "TFound": Sup, "TNotFound": Unsup, "TLazyNotFound": Set[Unsup], "TRecursive": "self",
           # primitive types: the born-with hook calls the class (int("7")); the raw value is of another class, so hook(raw) != raw
-          "TPrimInt": int, "TPrimStr": str}
+          "TPrimInt": int, "TPrimStr": str,
+          # a TypeVar-typed attribute of a generic class, used as FC[Sup]: the hook of the SUBSTITUTED type (Converter's generated hooks only)
+          "TGeneric": "typevar"}
 PRIM_RAW = {"TPrimInt": ("7", 7), "TPrimStr": (5, "5")}
 # in the model a primitive type is a type whose hook is found
-TK_COQ = {"TPrimInt": "TFound", "TPrimStr": "TFound"}
+TK_COQ = {"TPrimInt": "TFound", "TPrimStr": "TFound", "TGeneric": "TFound"}
+_TV = __import__("typing").TypeVar("_TV")
 
 
 def classify(v, raw, cl=None, hooked=None):
@@ -60,7 +63,7 @@ def classify(v, raw, cl=None, hooked=None):
 
 
 def doc_rule(has_conv, prefer, tk):
-    exists = {"TUntyped": None, "TFound": True, "TNotFound": False, "TLazyNotFound": False, "TRecursive": True, "TPrimInt": True, "TPrimStr": True}[tk]
+    exists = {"TUntyped": None, "TFound": True, "TNotFound": False, "TLazyNotFound": False, "TRecursive": True, "TPrimInt": True, "TPrimStr": True, "TGeneric": True}[tk]
     if has_conv:
         if prefer:
             return "(VK VRaw)"
@@ -82,6 +85,8 @@ def build(tk, has_conv, position, n_extra, with_default):
             if tk == "TRecursive":
                 kw["type"] = "FC"
                 kw["default"] = None
+            elif tk == "TGeneric":
+                kw["type"] = _TV
             elif TKINDS[tk] is not None:
                 kw["type"] = TKINDS[tk]
             if with_default and tk != "TRecursive":
@@ -89,6 +94,10 @@ def build(tk, has_conv, position, n_extra, with_default):
             fields[n] = attrs.field(**kw)
         else:
             fields[n] = attrs.field(type=int, default=0) if with_default else attrs.field(type=int)
+    if tk == "TGeneric":
+        from typing import Generic
+        cl = attrs.make_class("FC", fields, bases=(Generic[_TV],))
+        return cl, names
     cl = attrs.make_class("FC", fields)
     if tk == "TRecursive":
         attrs.resolve_types(cl, {"FC": cl}, {"FC": cl})
@@ -123,6 +132,8 @@ def check_c20(v: Verdict, tier):
                         continue          # the nested payload leaves the self-reference out: it needs its default
                     raw = None
                 for full, dv, strat in configs:
+                    if tk == "TGeneric" and not (full and strat is UnstructureStrategy.AS_DICT):
+                        continue          # generic classes are documented for Converter's generated hooks only
                     conv = (Converter if full else BaseConverter)(prefer_attrib_converters=prefer, detailed_validation=dv, unstruct_strat=strat)
                     conv.register_structure_hook(Sup, lambda val, _: ("H", val))
                     generated = full and strat is UnstructureStrategy.AS_DICT
@@ -138,7 +149,7 @@ def check_c20(v: Verdict, tier):
                     else:
                         payload = [(raw if n == "target" else 3) for n in names]
                     try:
-                        inst = conv.structure(payload, cl)
+                        inst = conv.structure(payload, cl[Sup] if tk == "TGeneric" else cl)
                         obs = classify(inst.target, raw, cl if tk == "TRecursive" else None, hooked)
                     except Exception:
                         obs = "VFail"
@@ -155,8 +166,9 @@ def check_c20(v: Verdict, tier):
                         continue
                     want = doc_rule(has_conv, prefer, tk)
                     if obs != want:
-                        rp = {"lane": "FIELD/C20", **desc, "documented": want,
-                              "python_repro": "attrs class with field(converter=K, type=Set[Unsupported]); Converter().structure({'target': [1]}, cl) raises, BaseConverter returns K(raw)"}
+                        rp = {"lane": "FIELD/C20", **desc, "documented": want}
+                        if tk == "TLazyNotFound":
+                            rp["python_repro"] = "attrs class with field(converter=K, type=Set[Unsupported]); Converter().structure({'target': [1]}, cl) raises, BaseConverter returns K(raw)"
                         if generated and tk == "TLazyNotFound" and has_conv and not prefer and obs == "VFail":
                             hist["f15_hits"] += 1
                             v.finding("F15", "Converter raises where BaseConverter falls back to the raw value (lazily failing container hook)", rp)
@@ -167,7 +179,7 @@ def check_c20(v: Verdict, tier):
                         hist["default_checks"] += 1
                         p2 = {n: 3 for n in names if n != "target"}
                         try:
-                            got = conv.structure(p2, cl).target
+                            got = conv.structure(p2, cl[Sup] if tk == "TGeneric" else cl).target
                             exp = ("K", "dflt") if has_conv else "dflt"
                             if got != exp:
                                 v.violation("default of an absent attribute was not left to attrs", {"lane": "FIELD/C20", **desc, "got": repr(got)})
